@@ -556,6 +556,45 @@ def rule_srk(ctx) -> None:
     chk.decide("int_data = self.export_fuses()[index * 4:(1 + index) * 4]" in norm(gfu.node) and "unpack('<I', int_data)[0]" in norm(gfu.node), "C07.srk", gfu.qual, "fuse word i = little-endian bytes 4i..4i+3 of the table hash", "", "", A.loc(SEC, gfu.node))
 
 
+def rule_roundtrip(ctx) -> None:
+    """C07.cmd-roundtrip / C07.secret-roundtrip: the HAB command and secret classes interpreted on model objects (E19): what export()
+    writes, parse() reads back into an object with the same fields that exports to the same bytes - constructor, export and parse of the
+    class (and of its bases, headers and enums) are evaluated from the source."""
+    from ..engines import ordereval, roundtrip
+    hx = {"Header": ctx.cls(HDR, "Header"), "CmdHeader": ctx.cls(HDR, "CmdHeader")}
+    E = lambda rel, n: ctx.enum_model(ctx.cls(rel, n))  # noqa: E731
+    eng, alg = E(CMD, "EnumEngine"), E(SEC, "EnumAlgorithm")
+    D = bytes(range(1, 21))
+    cmds = [
+        ("CmdNop", [{"param": 0}]),
+        ("CmdSet", [{"itm": E(CMD, "EnumItm").ENG, "hash_alg": alg.SHA256, "engine": eng.CAAM, "engine_cfg": 3}, {"itm": E(CMD, "EnumItm").MID, "hash_alg": alg.ANY, "engine": eng.ANY, "engine_cfg": 0}]),
+        ("CmdInitialize", [{"engine": eng.SNVS, "data": (1, 2, 3)}, {"engine": eng.ANY, "data": None}]),
+        ("CmdUnlock", [{"engine": eng.OCOTP, "features": 5, "uid": 0x1122334455667788}, {"engine": eng.CAAM, "features": 1, "uid": 0}]),
+        ("CmdUnlockSNVS", [{"features": 3}]),
+        ("CmdInstallKey", [{"flags": E(CMD, "EnumInsKey").ABS, "cert_fmt": E(CMD, "EnumCertFormat").X509, "hash_alg": alg.SHA256, "src_index": 2, "tgt_index": 3, "location": 0x1000}]),
+        ("CmdWriteData", [{"numbytes": 4, "ops": E(CMD, "EnumWriteOps").SET_BITMASK, "data": ((0x1000, 5), (0x2000, 7))}, {"numbytes": 2, "ops": E(CMD, "EnumWriteOps").WRITE_VALUE, "data": ((0x30, 0xFFFF),)}]),
+        ("CmdCheckData", [{"numbytes": 2, "ops": E(CMD, "EnumCheckOps").ANY_CLEAR, "address": 0x11223344, "mask": 0xFF00, "count": None},
+                          {"numbytes": 4, "ops": E(CMD, "EnumCheckOps").ALL_SET, "address": 0x40, "mask": 1, "count": 5}]),
+    ]
+    roundtrip.check_classes(ctx, "C07.cmd-roundtrip", CMD, cmds, hx, floor=8)
+
+    def leaves(c: ast.Call, ev):
+        if norm(c.func) == "get_ecc_curve" and len(c.args) == 1:
+            n_ = ev.ev(c.args[0])  # (spsdk.crypto.keys.get_ecc_curve: byte length of a coordinate -> curve)
+            return "EccCurve.SECP256R1" if n_ <= 32 else "EccCurve.SECP384R1" if n_ <= 48 else "EccCurve.SECP521R1"
+        return ordereval.NOT_MODELLED
+    curves = {f"EccCurve.{n}": f"EccCurve.{n}" for n in ("SECP256R1", "SECP384R1", "SECP521R1")}
+    secrets = [
+        ("SrkItemRSA", [{"modulus": bytes(range(1, 33)), "exponent": b"\x01\x00\x01", "flag": 0x80}, {"modulus": bytes(range(7, 71)), "exponent": b"\x03", "flag": 0}]),
+        ("SrkItemEcc", [{"key_size": 256, "x_coordinate": 0x1122334455, "y_coordinate": 0xAABB, "flag": 0x80}, {"key_size": 521, "x_coordinate": (1 << 520) + 5, "y_coordinate": 7, "flag": 0}]),
+        ("MAC", [{"version": 0x42, "nonce_len": 13, "mac_len": 16, "data": bytes(range(29))}]),
+        ("Signature", [{"version": 0x42, "data": D}]),
+        ("CertificateImg", [{"version": 0x42, "data": D}]),
+    ]
+    roundtrip.check_classes(ctx, "C07.secret-roundtrip", SEC, secrets, hx, leaves, curves, floor=5)
+    roundtrip.check_classes(ctx, "C07.secret-roundtrip", SEG, [("SegBDT", [{"app_start": 0x1000, "app_length": 0x2000, "plugin": 1}, {"app_start": 0, "app_length": 4, "plugin": 0}])], hx, floor=6)
+
+
 def run(ctx) -> None:
     ctx.chk.explain("C07: E1 wire symmetry of IVT/boot data/XMCD header/CSF commands/secret records (SRK items by byte position, XMCD nibbles by bit provenance), "
                     "segment-size rule (no wrapper may report a size inherited as 0), signed/encrypted block coverage of every segment kind with one address formula, "
@@ -570,6 +609,7 @@ def run(ctx) -> None:
     ctx.rule(rule_sigprovider)
     ctx.rule(rule_registry)
     ctx.rule(rule_srk)
+    ctx.rule(rule_roundtrip)
     ctx.chk.assumptions = ["CMS / X.509 / AES-CCM primitives are correct (C08, C09)", "struct semantics",
                            "not decided: an independent CMS verification of a built image, decryption of a built image, pointer arithmetic for every size beyond the sibling-formula agreement, "
                            "application offset detection heuristics of AppHabSegment.parse"]
